@@ -306,32 +306,33 @@ def setMany (strict inPlace : Bool) : Heap → Ref → List (Path × Ref) → Re
     | (h1, .ok d) => setMany strict inPlace h1 d kvs
     | (h1, .error e) => (h1, .error e)
 
-/-- `TreeMapView.set(keys, values, in_place)` (tree.py:497-531). Returns the `data` of the returned
-view: the new root when copying, the *old* root (`return self`) when `in_place`. -/
+/-- `return self if in_place else dataclasses.replace(self, data=data)` (tree.py:531): the `data` of the
+returned view is the *old* root when `in_place`, the new one otherwise. -/
+def finishSet (inPlace : Bool) (root : Ref) : Res Ref → Res Ref
+  | (h1, .ok d) => (h1, .ok (if inPlace then root else d))
+  | (h1, .error e) => (h1, .error e)
+
+/-- `values = values if type(values) is tuple else (values,)` (tree.py:518). -/
+def valuesOf (h : Heap) (values : Ref) : List Ref :=
+  match h[values]? with
+  | some (.tuple rs) => rs
+  | _ => [values]
+
+/-- `TreeMapView.set(keys, values, in_place)` (tree.py:497-531). -/
 def setItem (strict inPlace : Bool) (h : Heap) (root : Ref) (keys : Keys) (values : Ref) : Res Ref :=
-  let fin : Res Ref → Res Ref := fun
-    | (h1, .ok d) => (h1, .ok (if inPlace then root else d))
-    | (h1, .error e) => (h1, .error e)
   match keys with
-  | .path p => fin (setPath strict inPlace h root p values)
+  | .path p => finishSet inPlace root (setPath strict inPlace h root p values)
   | .empty =>
     match truthy h values with
     | .ok false => (h, .ok root)
     | .ok true => (h, .error .value)                      -- 'Keys cannot be empty'
     | .error e => (h, .error e)
   | .multi ks =>
-    -- values = values if type(values) is tuple else (values,)
-    let vals : List Ref := match h[values]? with
-      | some (.tuple rs) => rs
-      | _ => [values]
-    match ks with
-    | [k] =>
-      if vals.length > 1 then fin (setPath strict inPlace h root k values)
-      else if vals.length != 1 then (h, .error .value)
-      else fin (setMany strict inPlace h root (ks.zip vals))
-    | _ =>
-      if ks.length != vals.length then (h, .error .value)  -- 'Misaligned keys and values'
-      else fin (setMany strict inPlace h root (ks.zip vals))
+    let vals := valuesOf h values
+    if ks.length == 1 && vals.length > 1 then             -- `len(keys) == 1 and len(values) > 1`
+      finishSet inPlace root (setPath strict inPlace h root (ks.headD []) values)
+    else if ks.length != vals.length then (h, .error .value)  -- 'Misaligned keys and values'
+    else finishSet inPlace root (setMany strict inPlace h root (ks.zip vals))
 
 /-- `copy_and_set` (tree.py:542-547). -/
 def copyAndSet (strict : Bool) (h : Heap) (root : Ref) (keys : Keys) (values : Ref) : Res Ref :=
